@@ -298,3 +298,90 @@ Theorem C04_aromatic_examples :
   Z.of_nat (List.length arom_space) = 4791.
 Proof. exact aromatic_examples. Qed.
 Print Assumptions C04_aromatic_examples.
+
+(* ---- union / substructure / split (Model.ValenceArom mirrors Graph.union, MoleculeContainer.substructure / split as far
+        as atoms, bonds and hydrogen counts go; the components are an input of split_with: perception is C06) ---- *)
+Theorem C04_totals_numbering_free : forall g g', atoms_of g = atoms_of g' ->
+  brutto g = brutto g' /\ molecular_charge g = molecular_charge g' /\ is_radical g = is_radical g' /\
+  molecular_mass_e24 g = molecular_mass_e24 g'.
+Proof. exact totals_numbering_free. Qed.
+Print Assumptions C04_totals_numbering_free.
+
+Theorem C04_union_py_error : forall g1 g2 remap,
+  (union_py g1 g2 remap = Err ValueError <-> remap = false /\ exists k, In k (ids g1) /\ In k (ids g2)) /\
+  ((exists u, union_py g1 g2 remap = Ok u) \/ union_py g1 g2 remap = Err ValueError).
+Proof. exact union_py_error. Qed.
+Print Assumptions C04_union_py_error.
+
+Theorem C04_union_py_atoms : forall g1 g2 remap u, union_py g1 g2 remap = Ok u -> atoms_of u = atoms_of g1 ++ atoms_of g2.
+Proof. exact union_py_atoms. Qed.
+Print Assumptions C04_union_py_atoms.
+
+Theorem C04_union_py_totals : forall g1 g2 remap u, union_py g1 g2 remap = Ok u ->
+  molecular_charge u = molecular_charge g1 + molecular_charge g2 /\
+  is_radical u = is_radical g1 || is_radical g2 /\
+  (forall c1 c2, brutto g1 = Ok c1 -> brutto g2 = Ok c2 ->
+     exists c, brutto u = Ok c /\ forall s, sval c s = sval c1 s + sval c2 s) /\
+  (forall m1 m2, molecular_mass_e24 g1 = Ok m1 -> molecular_mass_e24 g2 = Ok m2 -> molecular_mass_e24 u = Ok (m1 + m2)).
+Proof. exact union_py_totals. Qed.
+Print Assumptions C04_union_py_totals.
+
+(* with remap the second molecule is numbered max+1, max+2, ... : no atom of the first is overwritten *)
+Theorem C04_union_py_ids : forall g1 g2 remap u, NoDup (ids g1) -> NoDup (ids g2) -> union_py g1 g2 remap = Ok u ->
+  NoDup (ids u) /\
+  ids u = ids g1 ++ (if overlap g1 g2 then zrange_from (max_id g1 + 1) (List.length (ids g2)) else ids g2).
+Proof. exact union_py_ids. Qed.
+Print Assumptions C04_union_py_ids.
+
+Theorem C04_substructure_keep_atoms : forall g sel s, substructure g sel false = Ok s ->
+  m_atoms s = filter (in_sel sel) (m_atoms g).
+Proof. exact substructure_keep_atoms. Qed.
+Print Assumptions C04_substructure_keep_atoms.
+
+Theorem C04_split_atoms : forall g comps parts, is_partition g comps = true -> split_with g comps = Ok parts ->
+  Permutation (flat_map m_atoms parts) (m_atoms g).
+Proof. exact split_atoms. Qed.
+Print Assumptions C04_split_atoms.
+
+Theorem C04_split_totals : forall g comps parts, is_partition g comps = true -> split_with g comps = Ok parts ->
+  molecular_charge g = zsum (map molecular_charge parts) /\
+  is_radical g = existsb is_radical parts /\
+  (forall s, formula_count (m_atoms g) s = zsum (map (fun p => formula_count (m_atoms p) s) parts)) /\
+  (forall c, brutto g = Ok c -> exists cs, Forall2 (fun p ci => brutto p = Ok ci) parts cs /\
+                                          forall s, sval c s = zsum (map (fun ci => sval ci s) cs)) /\
+  (forall m, molecular_mass_e24 g = Ok m -> exists ms, Forall2 (fun p mi => molecular_mass_e24 p = Ok mi) parts ms /\ m = zsum ms).
+Proof. exact split_totals. Qed.
+Print Assumptions C04_split_totals.
+
+(* the recalculation switch: on a selection that no bond leaves, recalculation stores what calc_implicit gives in the whole
+   molecule; if the molecule's counts are fresh (state after fix_structure) both settings build the same substructure; on a
+   selection that cuts a bond they differ (witness) *)
+Theorem C04_sub_recalc_closed : forall g sel s, closed_sel g sel = true -> substructure g sel true = Ok s ->
+  ids s = filter (fun n => zmem n sel) (ids g) /\
+  forall k a, atom_of g k = Some a -> zmem k sel = true -> atom_of s k = Some (with_h a (result_of (calc_implicit g k))).
+Proof. exact sub_recalc_closed. Qed.
+Print Assumptions C04_sub_recalc_closed.
+
+Theorem C04_sub_switch_irrelevant : forall g sel s, NoDup (ids g) -> closed_sel g sel = true ->
+  (forall k a, atom_of g k = Some a -> a_h a = result_of (calc_implicit g k)) ->
+  substructure g sel true = Ok s -> substructure g sel false = Ok s.
+Proof. exact sub_switch_irrelevant. Qed.
+Print Assumptions C04_sub_switch_irrelevant.
+
+Theorem C04_sub_switch_matters :
+  closed_sel ethane [1] = false /\
+  option_map (fun s => map (fun na => a_h (snd na)) (m_atoms s)) (match substructure ethane [1] false with Ok s => Some s | Err _ => None end) = Some [Some 3] /\
+  option_map (fun s => map (fun na => a_h (snd na)) (m_atoms s)) (match substructure ethane [1] true with Ok s => Some s | Err _ => None end) = Some [Some 4] /\
+  closed_sel ethane [1; 2] = true /\ substructure ethane [2; 1] true = Ok ethane /\ substructure ethane [2; 1] false = Ok ethane.
+Proof. exact sub_switch_matters. Qed.
+Print Assumptions C04_sub_switch_matters.
+
+Theorem C04_union_split_example :
+  union_py methanol methanol false = Err ValueError /\
+  exists u p2, union_py methanol methanol true = Ok u /\ ids u = [1; 2; 3; 4] /\ wf_mol u = true /\
+    is_partition u [[1; 2]; [3; 4]] = true /\ forallb (closed_sel u) [[1; 2]; [3; 4]] = true /\
+    split_with u [[1; 2]; [3; 4]] = Ok [methanol; p2] /\ ids p2 = [3; 4] /\ atoms_of p2 = atoms_of methanol /\
+    brutto u = Ok [("C", 2); ("O", 2); ("H", 8)] /\
+    substructure u [4; 3] true = Ok p2 /\ substructure u [] true = Err ValueError /\ substructure u [5] true = Err ValueError.
+Proof. exact union_split_example. Qed.
+Print Assumptions C04_union_split_example.
